@@ -270,6 +270,10 @@ func (lam *Lambda) Compile(s *Scope, extraVars ...string) {
 	expand:
 		switch tf := f.(type) {
 		case Symbol:
+			if 0 < len(tf) && tf[0] == ':' {
+				// A keyword evaluates to itself, it is not a variable.
+				break
+			}
 			if s.has(string(tf)) || lam.Doc.getArg(string(tf)) != nil {
 				break
 			}
